@@ -61,6 +61,30 @@ fn main() {
             }
             emit(json!({"ev":"done","w":w}));
         }
+        "sweep-worker" => {
+            // sweep-worker <prop> <w> <nworkers> [stride]: the w-th slice of the complete sweep
+            let prop = &args[2];
+            let w: u64 = args[3].parse().unwrap();
+            let n: u64 = args[4].parse().unwrap();
+            let stride: u64 = args.get(5).and_then(|s| s.parse().ok()).unwrap_or(1);
+            let all = hotswap::sweep_scenarios(prop);
+            emit(json!({"ev":"sweep-size","total":all.len(),"stride":stride}));
+            for (i, sc) in all.iter().enumerate() {
+                let i = i as u64;
+                if i % stride != 0 || (i / stride) % n != w {
+                    continue;
+                }
+                emit(json!({"ev":"begin","w":w,"i":i,"seed":i}));
+                let r = hotswap::run(sc);
+                let viol = matches!(r.outcome, Some(Outcome::Violation { .. }) | Some(Outcome::HarnessError(_)));
+                let mut v = json!({"ev":"end","w":w,"i":i,"seed":i,"result":r,"backend": sc.backend.name(),"sweep":true});
+                if viol {
+                    v["scenario"] = serde_json::to_value(sc).unwrap();
+                }
+                emit(v);
+            }
+            emit(json!({"ev":"done","w":w}));
+        }
         "run-file" => {
             let sc: Scenario = serde_json::from_str(&std::fs::read_to_string(&args[2]).unwrap()).unwrap();
             let r = hotswap::run(&sc);
